@@ -1,5 +1,6 @@
 //! avro-obs: runs the apache-avro implementation on cases written in the neutral term language
 //! and prints one observation per case.  Line format: "<id> <term>" in, "<id> <term>" out.
+mod container;
 mod conv;
 mod ops;
 mod sexp;
